@@ -104,10 +104,10 @@ static void install() {
     vf_setup();
 }
 
-int run_case(const uint16_t* d, size_t n, std::string* msg, bool fuzz_entry) {
+int run_case(const uint16_t* d, size_t n, std::string* msg, bool fuzz_entry, bool odd_bytes) {
     install();
     Ctx c;
-    c.t.d = d; c.t.n = n;
+    c.t.d = d; c.t.n = n; c.t.odd_bytes = odd_bytes;
     g_cur = d; g_cur_n = n; g_in_case = true; g_ctx = &c;
     int rc = 0;
     g_stats.cases++;
